@@ -99,7 +99,8 @@ Inductive ev :=
 (* recorded by the harness content / decision wrapper, not by the engine *)
 | VNextAction (id typ evl : Z) | VDefaultAction (id : Z) | VUltCheck (reqs : list (Z * Z * Z))
 | VCall (kind id primary : Z)          (* 0 attack, 1 skill, 2 ult, 3 enemy action *)
-| VSample (chars enemies order : list Z).
+| VSample (chars enemies order : list Z)
+| VDeathSeen (t killer : Z).            (* the content's TargetDeath listener starts *)
 
 Record result := mkRes { r_dealt : float; r_taken : float; r_dealt_cyc : list float; r_taken_cyc : list float }.
 
@@ -194,7 +195,7 @@ Definition hp_change (s : sim) (u : unit) (newr : float) (is_dmg : bool) (src : 
   if PrimFloat.eqb (uhp u) newr then s else
   let last := if is_dmg then src else ulast u in
   let s1 := emit (upd_unit s (with_hp u newr (ust u) last)) [VHPChange (uid u) (uhp u) newr] in
-  if PrimFloat.ltb 0 newr then upd_unit s1 (with_hp u newr Alive last)
+  if PrimFloat.ltb 0 newr then upd_unit s1 (with_hp u newr (match ust u with Dead => Dead | _ => Alive end) last)
   else
     (* LimboWaitHeal is cancelable; the harness content cancels iff the unit is "revivable" *)
     let st := if urev u then Limbo else Dead in
@@ -341,95 +342,110 @@ Definition gauge_events (outs : list (out F)) : list ev :=
 Section Scripts.
   Variable cfg : config.
 
-  Fixpoint exec_ops (fuel : nat) (s : sim) (self primary : Z) (ops : script) {struct fuel} : option sim :=
-    match fuel with
-    | O => None
-    | S f =>
-      match ops with
-      | [] => Some s
-      | o :: rest =>
-        let continue (s' : sim) := exec_ops f s' self primary rest in
-        match o with
-        | SAttack key targets qualified dmg =>
-            let tids := map (resolve self primary) targets in
-            if (match tids with [] => true | _ => false end) || negb (is_alive s self) then continue s else
-            let s1 := match in_attack s with
-                      | None => if qualified then emit (set_attack s (Some (key, self))) [VAttackStart key self] else s
-                      | Some _ => s
-                      end in
-            (* performHit for every target, in order *)
-            let fix hits (f' : nat) (s : sim) (ts : list Z) : option sim :=
-              match ts with
-              | [] => Some s
-              | d :: ts' =>
-                  let s2 := emit s [VHitStart self d] in
-                  let s3 := damage_hp s2 d self dmg in
-                  let hpleft := match get_unit (units s3) d with Some u => uhp u | None => 0%float end in
-                  (* HitEnd listeners: statistics first, then the content's *)
-                  let s4 := record_hit s3 d dmg in
-                  let '(sc, s5) := pop_slot s4 LHitEnd in
-                  let r := match sc with
-                           | Some i => exec_ops f s5 d self (nth i (c_scripts cfg) [])
-                           | None => Some s5
-                           end in
-                  match r with
-                  | None => None
-                  | Some s6 => hits f' (emit s6 [VHitEnd self d dmg hpleft]) ts'
-                  end
-              end in
-            match hits f s1 tids with
-            | None => None
-            | Some s' => continue s'
-            end
-        | SEndAttack => continue (end_attack s)
-        | SSetHP t frac =>
-            let id := resolve self primary t in
-            match get_unit (units s) id with
-            | None => continue s
-            | Some u => continue (set_hp s id (PrimFloat.mul frac (umax u)))
-            end
-        | SInsertAbility key prio src abort body =>
-            if budget s <=? 0 then continue s
-            else continue (enqueue (set_budget s (budget s - 1)) prio (resolve self primary src) abort
-                                   (KAbility key prio abort body))
-        | SInsertAction t =>
-            if budget s <=? 0 then continue s else
-            let id := resolve self primary t in
-            let prio := if is_enemy s id then PRIO_ENEMY_ACTION else PRIO_CHAR_ACTION in
-            continue (enqueue (set_budget s (budget s - 1)) prio id [FLAG_STAT_CTRL; FLAG_DISABLE_ACTION] KAction)
-        | SModEnergy t amt => continue (mod_energy_fixed s (resolve self primary t) amt)
-        | SModSP amt => continue (mod_sp s amt)
-        | SAddFlag t fl =>
-            let id := resolve self primary t in
-            match get_unit (units s) id with
-            | None => continue s
-            | Some u => if existsb (Z.eqb fl) (uflags u) then continue s
-                        else continue (upd_unit s (with_flags u (uflags u ++ [fl])))
-            end
-        | SRemoveFlag t fl =>
-            let id := resolve self primary t in
-            match get_unit (units s) id with
-            | None => continue s
-            | Some u => continue (upd_unit s (with_flags u (filter (fun x => negb (x =? fl)) (uflags u))))
-            end
-        | SGaugeNorm t amt =>
-            let '(t', outs) := Turn.step F (turn s) (@OModNorm F (resolve self primary t) amt) in
-            continue (emit (set_turn s t') (gauge_events outs))
-        | SSetRevivable t b =>
-            let id := resolve self primary t in
-            match get_unit (units s) id with
-            | None => continue s
-            | Some u => continue (upd_unit s (with_rev u b))
-            end
-        | SSample => continue (emit s [VSample (chars s) (enemies s) (turn_ids s)])
+  (* Scripts run in one of two modes.  Body mode: the script of an action, ult or insert.
+     Listener mode ([lm] = true): a script run from inside an event listener.  Legal use of the
+     engine API, as the lifecycle protocol needs it: a listener never opens or closes an attack
+     bracket itself (it may deal additional, unbracketed damage and queue inserts).  An illegal
+     call in listener mode ends the model run with [None], like running out of fuel; every
+     theorem is conditional on a normal result. *)
+  Definition runner := sim -> Z -> Z -> script -> option sim.
+
+  (* performHit for every target, in order; [R] runs the content's HitEnd listener *)
+  Fixpoint do_hits (R : runner) (s : sim) (self : Z) (dmg : float) (ts : list Z) : option sim :=
+    match ts with
+    | [] => Some s
+    | d :: ts' =>
+        let s2 := emit s [VHitStart self d] in
+        let s3 := damage_hp s2 d self dmg in
+        let hpleft := match get_unit (units s3) d with Some u => uhp u | None => 0%float end in
+        (* HitEnd listeners: statistics first, then the content's *)
+        let s4 := record_hit s3 d dmg in
+        let '(sc, s5) := pop_slot s4 LHitEnd in
+        let r := match sc with
+                 | Some i => R s5 d self (nth i (c_scripts cfg) [])
+                 | None => Some s5
+                 end in
+        match r with
+        | None => None
+        | Some s6 => do_hits R (emit s6 [VHitEnd self d dmg hpleft]) self dmg ts'
         end
-      end
+    end.
+
+  Definition exec_op (R : runner) (lm : bool) (s : sim) (self primary : Z) (o : sop) : option sim :=
+    match o with
+    | SAttack key targets qualified dmg =>
+        if lm && qualified then None else
+        let tids := map (resolve self primary) targets in
+        if (match tids with [] => true | _ => false end) || negb (is_alive s self) then Some s else
+        let s1 := match in_attack s with
+                  | None => if qualified then emit (set_attack s (Some (key, self))) [VAttackStart key self] else s
+                  | Some _ => s
+                  end in
+        do_hits R s1 self dmg tids
+    | SEndAttack => if lm then None else Some (end_attack s)
+    | SSetHP t frac =>
+        let id := resolve self primary t in
+        match get_unit (units s) id with
+        | None => Some s
+        | Some u => Some (set_hp s id (PrimFloat.mul frac (umax u)))
+        end
+    | SInsertAbility key prio src abort body =>
+        if budget s <=? 0 then Some s
+        else Some (enqueue (set_budget s (budget s - 1)) prio (resolve self primary src) abort
+                           (KAbility key prio abort body))
+    | SInsertAction t =>
+        if budget s <=? 0 then Some s else
+        let id := resolve self primary t in
+        let prio := if is_enemy s id then PRIO_ENEMY_ACTION else PRIO_CHAR_ACTION in
+        Some (enqueue (set_budget s (budget s - 1)) prio id [FLAG_STAT_CTRL; FLAG_DISABLE_ACTION] KAction)
+    | SModEnergy t amt => Some (mod_energy_fixed s (resolve self primary t) amt)
+    | SModSP amt => Some (mod_sp s amt)
+    | SAddFlag t fl =>
+        let id := resolve self primary t in
+        match get_unit (units s) id with
+        | None => Some s
+        | Some u => if existsb (Z.eqb fl) (uflags u) then Some s
+                    else Some (upd_unit s (with_flags u (uflags u ++ [fl])))
+        end
+    | SRemoveFlag t fl =>
+        let id := resolve self primary t in
+        match get_unit (units s) id with
+        | None => Some s
+        | Some u => Some (upd_unit s (with_flags u (filter (fun x => negb (x =? fl)) (uflags u))))
+        end
+    | SGaugeNorm t amt =>
+        let '(t', outs) := Turn.step F (turn s) (@OModNorm F (resolve self primary t) amt) in
+        Some (emit (set_turn s t') (gauge_events outs))
+    | SSetRevivable t b =>
+        let id := resolve self primary t in
+        match get_unit (units s) id with
+        | None => Some s
+        | Some u => Some (upd_unit s (with_rev u b))
+        end
+    | SSample => Some (emit s [VSample (chars s) (enemies s) (turn_ids s)])
+    end.
+
+  Fixpoint exec_list (R : runner) (lm : bool) (s : sim) (self primary : Z) (ops : script) : option sim :=
+    match ops with
+    | [] => Some s
+    | o :: rest =>
+        match exec_op R lm s self primary o with
+        | None => None
+        | Some s' => exec_list R lm s' self primary rest
+        end
+    end.
+
+  (* fuel bounds the nesting depth of listener-run scripts *)
+  Fixpoint exec_ops (fuel : nat) (lm : bool) : runner :=
+    match fuel with
+    | O => fun _ _ _ _ => None
+    | S f => fun s self primary ops => exec_list (exec_ops f true) lm s self primary ops
     end.
 
   Definition run_slot (fuel : nat) (s : sim) (sl : slot) (self primary : Z) : option sim :=
     let '(sc, s1) := pop_slot s sl in
     match sc with
-    | Some i => exec_ops fuel s1 self primary (nth i (c_scripts cfg) [])
+    | Some i => exec_ops fuel true s1 self primary (nth i (c_scripts cfg) [])
     | None => Some s1
     end.
 
@@ -547,7 +563,7 @@ Section Scripts.
         let killer := match get_unit (units s1) id with Some u => ulast u | None => id end in
         (* TargetDeath listeners: the global energy-on-kill hook, then the content's *)
         let s2 := mod_energy_fixed s1 killer 10 in
-        match run_slot fuel s2 LDeath id killer with
+        match run_slot fuel (emit s2 [VDeathSeen id killer]) LDeath id killer with
         | None => None
         | Some s3 => announce fuel (emit s3 [VTargetDeath id killer]) rest
         end
@@ -566,7 +582,7 @@ Section Scripts.
   (* body shared by action / ult / insert: run content, close an open attack, emit the end *)
   Definition run_body (fuel : nat) (s : sim) (self primary : Z) (sc : script) (endev : ev)
              (sl : option slot) : option sim :=
-    match exec_ops fuel s self primary sc with
+    match exec_ops fuel false s self primary sc with
     | None => None
     | Some s1 =>
         let s2 := end_attack s1 in
